@@ -351,3 +351,22 @@ def purity_obligations(ck, rule, fns, why):
         ck.ob(rule, '%s/%s' % (rule, name), not imp, f.loc(imp[0]) if imp else f.loc(),
               '%s keeps no state between calls (no static / thread_local local, no mutable namespace-scope variable): %s' % (short(f.q), why))
     return n
+
+
+def io_progress_ok(f, io_names):
+    """A whole-buffer I/O loop advances its running total by the count the system call returned: returns (ok, node) where node is
+    the advancing `+=` (or None)."""
+    ios = [i for i in f.walk() if (f.nodes[i].get('callee') or '').lstrip(':') in io_names]
+    res = [f.nodes[v]['d'] for v in f.walk() if f.nodes[v]['k'] == 'VarDecl' and f.nodes[v].get('init') is not None and f.nodes[v]['init'] >= 0 and
+           any(j in ios for j in f.walk(f.nodes[v]['init']))]
+    adv = [i for i in f.walk() if f.nodes[i]['k'] == 'CompoundAssignOperator' and f.nodes[i].get('op') == '+=' and
+           f.nodes[f.strip(f.kids(i)[0])]['k'] == 'DeclRefExpr' and f.nodes[f.strip(f.kids(i)[0])].get('dk') in ('Var', 'ParmVar') and not f.nodes[f.strip(f.kids(i)[0])].get('g')]
+    # only the advance of a byte offset counts: its right-hand side mentions locals / parameters
+    adv = [i for i in adv if any(f.nodes[j]['k'] == 'DeclRefExpr' and f.nodes[j].get('dk') in ('Var', 'ParmVar') for j in f.walk(f.kids(i)[1]))]
+    if not ios or not res or not adv:
+        return False, (adv[0] if adv else None)
+    for a in adv:
+        refs = [f.nodes[j].get('d') for j in f.walk(f.kids(a)[1]) if f.nodes[j]['k'] == 'DeclRefExpr' and f.nodes[j].get('dk') in ('Var', 'ParmVar')]
+        if not refs or any(d not in res for d in refs):
+            return False, a
+    return True, adv[0]
